@@ -45,6 +45,8 @@ func (e *Engine) StructuralObligations(want map[string]bool) ([]*Obligation, err
 				o.StructOK, o.StructMsg = e.checkNoGlobalStores(c.Fn, sc.Args)
 			case "locks_released":
 				o.StructOK, o.StructMsg = checkLocksReleased(c.Fn)
+			case "no_package_state":
+				o.StructOK, o.StructMsg = e.checkNoPackageState(c.Fn, sc.Args)
 			case "chan_buffered":
 				o.StructOK, o.StructMsg = checkChanBuffered(c.Fn, sc.Args)
 			case "sends_selectable":
@@ -1062,4 +1064,69 @@ func (e *Engine) broadcastOnly(g GuardInfo, st types.Type, u *types.Struct) []*O
 	}
 	return []*Obligation{{Name: name, Func: g.Type, Kind: "guard", Props: g.Props, Structu: true, StructOK: ok, StructMsg: msg,
 		Src: fmt.Sprintf("broadcast_only %s.%s (%d broadcast sites)", g.Type, g.Lock, broadcasts)}}
+}
+
+// checkNoPackageState: fn, its function literals and the module functions it calls statically (transitively) mention
+// no package-level variable of the module except the allowed ones (read-only tables, logging switches). A result that
+// may only depend on the arguments cannot be taken from, or leaked into, state shared between connections: no memo,
+// no pool, no scratch buffer at package level.
+func (e *Engine) checkNoPackageState(fn *ssa.Function, allowed []string) (bool, string) {
+	al := map[string]bool{}
+	for _, a := range allowed {
+		al[a] = true
+	}
+	seen := map[*ssa.Function]bool{}
+	var bad []string
+	var visit func(f *ssa.Function, depth int)
+	visit = func(f *ssa.Function, depth int) {
+		if f == nil || seen[f] || len(f.Blocks) == 0 || depth > 12 {
+			return
+		}
+		seen[f] = true
+		for _, b := range f.Blocks {
+			for _, in := range b.Instrs {
+				for _, op := range in.Operands(nil) {
+					if op == nil || *op == nil {
+						continue
+					}
+					if g, ok := (*op).(*ssa.Global); ok && g.Pkg != nil && e.inModule(g.Pkg.Pkg) {
+						if !al[g.Name()] && !al[g.Pkg.Pkg.Name()+"."+g.Name()] {
+							p := e.Fset.Position(in.Pos())
+							bad = append(bad, fmt.Sprintf("%s.%s at %s:%d", g.Pkg.Pkg.Name(), g.Name(), shortFile(p.Filename), p.Line))
+						}
+					}
+				}
+				var cc *ssa.CallCommon
+				switch in := in.(type) {
+				case *ssa.Call:
+					cc = &in.Call
+				case *ssa.Defer:
+					cc = &in.Call
+				case *ssa.Go:
+					cc = &in.Call
+				case *ssa.MakeClosure:
+					if cf, ok := in.Fn.(*ssa.Function); ok {
+						visit(cf, depth+1)
+					}
+				}
+				if cc != nil {
+					if cf := staticFn(cc); cf != nil && cf.Pkg != nil && e.inModule(cf.Pkg.Pkg) {
+						visit(cf, depth+1)
+					}
+				}
+			}
+		}
+		for _, an := range f.AnonFuncs {
+			visit(an, depth+1)
+		}
+	}
+	visit(fn, 0)
+	if len(bad) == 0 {
+		return true, ""
+	}
+	sort.Strings(bad)
+	if len(bad) > 6 {
+		bad = append(bad[:6], "...")
+	}
+	return false, "uses package-level state: " + strings.Join(bad, ", ")
 }
